@@ -217,7 +217,7 @@ def C14(ctx):
     for bug, inv in (("call_before_rules", "ProviderLast"), ("retry_on_error", "ProviderOnce"),
                      ("accept_on_provider_error", "OkNeedsAnswer"), ("skip_ready", "CallOnlyWhenReady")):
         mc(ctx, "SigV4", "MC_SigV4_bug_%s.cfg" % bug, expect_violation=inv, label="neg-" + bug)
-    req_campaign(ctx, [("scripts", 0), ("defects", 1)])
+    req_campaign(ctx, [("scripts", 0), ("defects", 1), ("forever", 0)])
     return dict(
         rule="MC: provider process with delayed readiness / delayed answer / SignatureError / foreign error scripts, "
              "ProviderOnce, ProviderLast, CallOnlyWhenReady, CallsExact, OkNeedsAnswer, HistoryFree over histories of "
@@ -367,7 +367,7 @@ def C07(ctx):
     mc(ctx, "CtEq", "MC_CtEq.cfg", label="NonInterference")
     mc(ctx, "CtEq", "MC_CtEq_neg.cfg", expect_violation="NonInterference", label="neg-early-exit")
     cases, n = tlc_gen(ctx, "Gen_Req", {"Family": "ct", "Bound": 0 if q else 1}, "ct")
-    lines = open(cases).read().splitlines()
+    lines = [x for x in open(cases).read().split("\n") if x]
     groups = {}
     for ln in lines:
         c = json.loads(ln)
@@ -485,7 +485,7 @@ def C18(ctx):
     with open(corpus, "w") as w:
         for fam, bound in [("base", 0 if q else 1), ("defects", 1), ("dup", 0), ("fold", 1), ("reqs", 0)]:
             cases, n = tlc_gen(ctx, "Gen_Req", {"Family": fam, "Bound": bound}, "%s-%s" % (fam, bound))
-            lines = open(cases).read().splitlines()
+            lines = [x for x in open(cases).read().split("\n") if x]
             if q and len(lines) > 400:
                 lines = lines[:: len(lines) // 400 + 1]
             w.write("\n".join(lines) + "\n")
